@@ -83,6 +83,23 @@ def run(chk):
                             chk.fail("%s trained from a bag with %s partitions differs from the in-memory list in %s (order seed %d, isolated=%s)"
                                      % (kind.upper(), k, bad, sd, iso), dict(ctx, kind=kind, npartitions=k, isolated=iso, order_seed=sd,
                                                                            executed_order=sch.orders[-1] if sch.orders else []))
+            # a machine that has already been USED (channel factors estimated, a client enrolled) and is then trained from a bag on workers that see
+            # serialised copies of it: the same model as an unused machine trained from the list
+            def job_used():
+                m_ = mk()
+                m_.estimate_x([stats[0]])
+                m_.enroll([stats[1]])
+                m_.fit(bag_of(3), y)
+                return m_
+            try:
+                mu_, _sch = dasksched.run_under(100 * chk.seed + 1, True, job_used)
+                chk.count(1, key=(kind, "used before training, serialised tasks"))
+                bad = [nm for nm, a, b in (("U", mu_.U, ref.U), ("D", mu_.D, ref.D)) + ((("V", mu_.V, ref.V),) if kind == "jfa" else ()) if not close(a, b)]
+                if bad:
+                    chk.fail("%s that had estimated channel factors / enrolled a client before being trained from a bag with serialised tasks differs from the list-trained model in %s"
+                             % (kind.upper(), bad), dict(ctx, kind=kind, npartitions=3, isolated=True, history="estimate_x, enroll, fit(bag)"))
+            except Exception as e:
+                chk.fail("%s (used before) fit from a bag with serialised tasks raises %r" % (kind.upper(), e), dict(ctx, kind=kind))
             # the same machine trained a second time from the SAME bag object with another assignment of the sessions to classes: as from the list
             y2 = y[1:] + y[:1]
             if y2 != y:
